@@ -5,12 +5,14 @@
    bounds are printed texts, !=V.* into one constraint "!=*" carrying both bounds; === compares the version's String() with the
    bound text.  Bounds are parsed lazily (in Contains), except inside the shorthands. *)
 From Verif.Base Require Import Bytes GoNum Ord.
+From Verif.Gen Require Operators.
 From Verif.Eco Require Import RangeCore.
 From Verif.Eco.Pypi Require Version.
 
 (* operators := []string{"===", "~=", "==", "!=", "<=", ">=", "<", ">"} *)
+(* generated from the Go source on every run (tools/gen -> Gen/Operators.v) *)
 Definition pypi_ops : list bytes :=
-  [$"==="; $"~="; $"=="; $"!="; $"<="; $">="; $"<"; $">"].
+  Eval cbv delta [Verif.Gen.Operators.pypi_ops] in Verif.Gen.Operators.pypi_ops.
 
 (* constraint{operator, version, upper}; [upper] is used by the internal operator "!=*" only *)
 Record constraint := mkc { c_op : bytes; c_ver : bytes; c_upper : bytes }.
